@@ -175,6 +175,24 @@ impl AutosarModel {
         }
         .wrap();
 
+        {
+            let data = self.0.read();
+            for (key, value) in &parser.identifiables {
+                if let (Some(existing_element), Some(new_element)) = (
+                    data.identifiables.get(key).and_then(WeakElement::upgrade),
+                    value.upgrade(),
+                ) {
+                    if existing_element.element_name() != new_element.element_name() {
+                        // referenced element is different on both sides
+                        return Err(AutosarDataError::OverlappingDataError {
+                            filename,
+                            path: new_element.xml_path(),
+                        });
+                    }
+                }
+            }
+        }
+
         if self.0.read().files.is_empty() {
             root_element.set_parent(ElementOrModel::Model(self.downgrade()));
             root_element.0.write().file_membership.insert(arxml_file.downgrade());
@@ -192,18 +210,7 @@ impl AutosarModel {
         for (key, value) in parser.identifiables {
             // the same identifiables can be present in multiple files
             // in this case we only keep the first one
-            if let Some(existing_element) = data.identifiables.get(&key).and_then(WeakElement::upgrade) {
-                // present in both
-                if let Some(new_element) = value.upgrade() {
-                    if existing_element.element_name() != new_element.element_name() {
-                        // referenced element is different on both sides
-                        return Err(AutosarDataError::OverlappingDataError {
-                            filename,
-                            path: new_element.xml_path(),
-                        });
-                    }
-                }
-            } else {
+            if data.identifiables.get(&key).and_then(WeakElement::upgrade).is_none() {
                 data.identifiables.insert(key, value);
             }
         }
